@@ -27,11 +27,46 @@ pub struct PropertySpec {
 pub fn specs() -> Vec<PropertySpec> {
     vec![
         PropertySpec {
+            id: "C18",
+            level: "fault_enumeration",
+            plans: vec![
+                Plan { engine: "e2", variant: "c18", quick: 500, thorough: 30_000, asan: false },
+                Plan { engine: "e2", variant: "c18f", quick: 400, thorough: 20_000, asan: false },
+            ],
+            rule: "seeded projects (schema split over 1-3 files, 1-5 operation files with imports, random layout/config/options) that are valid or carry 1-3 labelled rule violations; each is run as check / generate / check+generate in the three output formats on a fresh tree (c18), and as check+generate under one injected I/O fault or crash at a sampled (quick) or every (thorough sweeps) intercepted system call of the fault-free trace (c18f). distinct = hash of project shape, config text, injected violations and fired faults; non-trivial = a violation was injected or a fault fired",
+            assumptions: vec![
+                "the CLI runs natively under an LD_PRELOAD shim instead of wasm32-wasi",
+                "diagnostic positions are judged by an independent GraphQL lexer",
+                "the verdict clause uses only the plainest constructs and violations (checker exactness itself is C03-C05, not claimed)",
+            ],
+            real_components: vec!["nitrogql-cli binary and every crate it links (clap, globmatch, serde_yaml, std::fs)", "kernel (tmpfs) for every call without an injected fault"],
+            stubbed_components: vec!["kernel answers where a fault is injected (shim)", "getrandom (hash seed) and readdir order (shim)"],
+        },
+        PropertySpec {
+            id: "C17",
+            level: "exploration",
+            plans: vec![Plan { engine: "e2", variant: "c17", quick: 300, thorough: 20_000, asan: false }],
+            rule: "seeded rich projects (>=6 types, >=3 directives and scalar mappings, >=2 implementers per interface); check+generate under 4 hash seeds x 2 directory-enumeration orders on fresh trees, a re-run on the generated tree, and a crash (or torn write + crash) at sampled system calls followed by a clean run; everything compared byte for byte",
+            assumptions: vec!["std's SipHash keys come from one getrandom call per process (verified by the self-test)", "directory order is permuted inside readdir64"],
+            real_components: vec!["nitrogql-cli binary"],
+            stubbed_components: vec!["getrandom, readdir order, crash points (shim)"],
+        },
+        PropertySpec {
+            id: "C08",
+            level: "fault_enumeration",
+            plans: vec![Plan { engine: "e2", variant: "c08", quick: 250, thorough: 15_000, asan: false }],
+            rule: "at-rest corruption of one input (config, schema or operation file): truncate at a byte offset, flip one bit, splice with another file, empty, invalid UTF-8 tail, file vanished, unreadable; then check / generate / check+generate",
+            assumptions: vec!["storage-fault slice only: grammar-directed fuzzing of the parser is a different technique"],
+            real_components: vec!["nitrogql-cli binary", "loader ABI"],
+            stubbed_components: vec!["storage (corruptions applied to the tree before the run)"],
+        },
+        PropertySpec {
             id: "C13",
             level: "exploration",
             plans: vec![
                 Plan { engine: "e3", variant: "", quick: 60_000, thorough: 4_000_000, asan: false },
                 Plan { engine: "e1", variant: "c13", quick: 12_000, thorough: 600_000, asan: false },
+                Plan { engine: "e2", variant: "c13", quick: 600, thorough: 40_000, asan: false },
             ],
             rule: "seeded import graphs (<=7 files, cycles, diamonds, self imports, several spellings of one path, wildcard/specific/repeated names, dangling files, missing names, resolver misses); a case is distinct by the hash of its resolved edge list + presence flags + root, non-trivial when it has >= 2 import lines",
             assumptions: vec![
@@ -169,6 +204,16 @@ pub fn run_check(ctx: &Ctx, engines: &[Box<dyn Engine>], id: &str) -> i32 {
     }
     // ---- triage
     let mine: Vec<&Finding> = total.findings.iter().filter(|f| f.violation.properties.iter().any(|p| p == id)).collect();
+    // findings that count against other properties only are shown, never judged here
+    let mut foreign: BTreeMap<String, (u64, u64)> = BTreeMap::new();
+    for f in total.findings.iter().filter(|f| !f.violation.properties.iter().any(|p| p == id)) {
+        let e = foreign.entry(format!("{:?} {}", f.violation.properties, f.violation.class)).or_insert((0, f.run_seed));
+        e.0 += 1;
+    }
+    for (k, (n, seed)) in &foreign {
+        println!("  note: {n} finding(s) for other properties, not judged by this check: {k} (e.g. run_seed {seed} engine/variant {})",
+            total.findings.iter().find(|f| f.run_seed == *seed).map(|f| format!("{}/{}", f.engine, f.variant)).unwrap_or_default());
+    }
     let mut by_class: BTreeMap<String, Vec<&Finding>> = BTreeMap::new();
     for f in &mine {
         by_class.entry(f.violation.class.clone()).or_default().push(f);
